@@ -213,6 +213,12 @@ def run(chk: Check) -> None:
         s = "".join(rnd.choice(alphabet) for _ in range(rnd.randint(0, 20)))
         hx = H.hex_from_str(s)
         D.add("str.enc", [esc(s)], "ok\t" + esc(hx))
+        if rnd.random() < 0.2:
+            bad = s + rnd.choice("\x00\x1f\x7fü€\n")
+            out = call(H.hex_from_str, bad, show=esc)
+            D.add("str.enc", [esc(bad)], out)
+            if out.startswith("ok") and H.hex_to_str(out[3:]) != bad.strip():
+                chk.violation("str.wrap:" + repr(bad), f"text {bad!r} is encoded but decodes as {H.hex_to_str(out[3:])!r}", {"text": bad})
         out = call(H.hex_to_str, hx, show=esc)
         D.add("str.dec", [hx], out)
         chk.evaluations += 1
